@@ -5,8 +5,9 @@
    local* used directly as the left operand of an arithmetic/bitwise/comparison operator is read
    when the operator executes, i.e. after the right operand has been evaluated.
    Compiler model [comp] = cgenerator.lua visitors.BinaryOp / visitor_Call with the analyzer's
-   `sideeffect` attribute (analyzer.lua: a call has it iff the callee's type has it or one of its arguments
-   has it - the latter since /repo 7b4cb3f -, an operator iff one of its operands has it).
+   `sideeffect` attribute (analyzer.lua: a call has it iff the callee's type has it or - rule p_args_propagate,
+   /repo 7b4cb3f - one of its arguments has it, an operator iff one of its operands has it); the two repaired
+   rules are parameters [se_policy], scraped into Gen.v, not hard-coded.
    C semantics [ceval] of the output: operands of a plain C operator and the arguments of a plain C
    call are evaluated in an order chosen by an oracle (a list of naturals consumed left to right);
    statement-expression temporaries are sequenced.  No proofs here. *)
@@ -31,8 +32,17 @@ Inductive expr :=
 Record wspec := mk_w { w_direct : bool; w_var : nat; w_val : Z; w_inc : bool }.
 Record fdef := mk_fdef { f_event : bool; f_writes : list wspec; f_retvar : option nat; f_base : Z }.
 Definition fenv := nat -> fdef.
-(* the `sideeffect` attribute as the analyzer computes it *)
-Definition f_se (d : fdef) : bool := f_event d || negb (match f_writes d with [] => true | _ => false end).
+(* what the analyzer looks at when it computes the `sideeffect` attribute; both facts are scraped from
+   analyzer.lua into Gen.v (C01: se_policy), the theorems say which of them they need:
+     p_args_propagate  visitor_Call: a call whose callee has no side effect takes the attribute from its
+                       arguments (`if argnodes[i].attr.sideeffect then attr.sideeffect = true end`, /repo 7b4cb3f)
+     p_indirect_marks  visitors.Assign: a store whose target has no symbol (field, index, pointer, self) marks
+                       the enclosing function (`else context:mark_funcscope_sideeffect()`, /repo 9e49985) *)
+Record se_policy := mk_sep { p_args_propagate : bool; p_indirect_marks : bool }.
+(* the `sideeffect` attribute of a function as the analyzer computes it: it prints, or performs a write the
+   analyzer sees (a direct write always; an indirect one under p_indirect_marks) *)
+Definition f_se (pol : se_policy) (d : fdef) : bool :=
+  f_event d || existsb (fun w => w_direct w || p_indirect_marks pol) (f_writes d).
 
 Definition store := list Z.
 Definition rd (s : store) (x : nat) : Z := nth x s 0.
@@ -84,11 +94,11 @@ Fixpoint leval (fe : fenv) (e : expr) (st : state) : state * Z :=
   end.
 
 (* ---------------- the compiler ---------------- *)
-Fixpoint has_se (fe : fenv) (e : expr) : bool :=
+Fixpoint has_se (pol : se_policy) (fe : fenv) (e : expr) : bool :=
   match e with
   | EConst _ | EVar _ _ => false
-  | ECall f args => f_se (fe f) || existsb (has_se fe) args      (* arguments propagate since /repo 7b4cb3f *)
-  | EBin _ l r => has_se fe l || has_se fe r
+  | ECall f args => f_se pol (fe f) || (p_args_propagate pol && existsb (has_se pol fe) args)
+  | EBin _ l r => has_se pol fe l || has_se pol fe r
   end.
 
 Inductive cexpr :=
@@ -99,16 +109,16 @@ Inductive cexpr :=
   | CBin (o : aop) (l r : cexpr)                        (* (l op r) *)
   | CBinSeq (o : aop) (l r : cexpr).                    (* ({ T t1_ = l; T t2_ = r; t1_ op t2_; }) *)
 
-Fixpoint comp (fe : fenv) (e : expr) : cexpr :=
+Fixpoint comp (pol : se_policy) (fe : fenv) (e : expr) : cexpr :=
   match e with
   | EConst v => CConst v
   | EVar _ x => CVar x
   | ECall f args =>
-    let cargs := map (comp fe) args in
-    let flags := map (has_se fe) args in
+    let cargs := map (comp pol fe) args in
+    let flags := map (has_se pol fe) args in
     if (2 <=? length (filter (fun b => b) flags))%nat then CCallSeq f (combine flags cargs) else CCall f cargs
   | EBin o l r =>
-    if has_se fe l && has_se fe r then CBinSeq o (comp fe l) (comp fe r) else CBin o (comp fe l) (comp fe r)
+    if has_se pol fe l && has_se pol fe r then CBinSeq o (comp pol fe l) (comp pol fe r) else CBin o (comp pol fe l) (comp pol fe r)
   end.
 
 (* ---------------- C semantics with an oracle ---------------- *)
@@ -180,5 +190,5 @@ Fixpoint ceval (fe : fenv) (e : cexpr) : thunk :=
 
 (* what is observable: final store, trace, value *)
 Definition lua_run (fe : fenv) (e : expr) (st : state) : state * Z := leval fe e st.
-Definition nelua_run (fe : fenv) (e : expr) (st : state) (o : oracle) : state * Z :=
-  let '(s, v, _) := ceval fe (comp fe e) st o in (s, v).
+Definition nelua_run (pol : se_policy) (fe : fenv) (e : expr) (st : state) (o : oracle) : state * Z :=
+  let '(s, v, _) := ceval fe (comp pol fe e) st o in (s, v).
